@@ -14,18 +14,19 @@ package suites
 //	                    answers a QUIT the way a server does (ERROR, then close).
 //
 // Observation (compared with the model): per connection the set of results the
-// statement allows for the kind, provided the observed result lies in it.
+// statement allows for the kind (Spec/LifecycleSpec.allowed, an instance of theorem
+// C07_result), provided the observed result lies in it; the observed result otherwise.
 //
 // Oracle: direct predicates on what was observed (return in time, result class/text,
 // lifecycle events, flush before ERROR, delivery order, IsConnected, peer EOF, library
 // goroutines gone, fresh tracked state and no stale event/output on connection 2), and
 // the whole observed trace (one total order, taken under one mutex) must be a trace of
 // the Coq machine: it is handed to the extracted checker `accepts`
-// (ocaml/modeldrv, suite lifecycle.accepts), proven sound in Proofs/LifecycleProofs.v.
-//
-//	lifecycle.accepts   the checker itself on recorded traces (corpus / fixed cases):
-//	                    the Go side re-evaluates the direct predicates it can on a bare
-//	                    trace (well-formedness only) and expects the recorded verdict.
+// (ocaml/modeldrv, suite lifecycle.accepts), proven sound in Proofs/LifecycleChecker.v
+// (theorem C07_accepts_sound). The trace log splits Close() into call and return so that
+// the cancellation lies between the two entries; the other entries are written before the
+// action (peer sends, Send/Quit, peer close) or after it (deliveries inside the handler,
+// return value, lines the peer has read, EOF), which the machine's asynchrony covers.
 
 import (
 	"bufio"
@@ -48,9 +49,11 @@ import (
 )
 
 const (
-	lcReturnBound = 5 * time.Second // generous: the code returns within milliseconds
-	lcStepBound   = 5 * time.Second // any single wait of the controller
-	lcSettleBound = 3 * time.Second // goroutines gone / peer EOF after the return
+	// generous on purpose (a loaded machine must not raise an alarm): the code returns within
+	// milliseconds, goroutines are gone within microseconds
+	lcReturnBound = 10 * time.Second // Connect returns after the stimulus
+	lcStepBound   = 10 * time.Second // any single wait of the controller
+	lcSettleBound = 5 * time.Second  // goroutines gone / peer EOF after the return
 )
 
 // ---------------------------------------------------------------- trace log
